@@ -44,7 +44,11 @@ def rec(d, host, script, mode, items, tag, nproc=8):
 
 def exc_pipeline(tier, rep, d):
     quick = tier == "quick"
-    beh = exc_gen(d, rep, 2, 0 if quick else 1)
+    # two entries over the small value set; thorough adds single entries over the rich set (1 764 of them: two rich entries would be 3 million tables)
+    beh = exc_gen(d, rep, 2, 0)
+    if not quick:
+        seen_ = set(tuple(b["tab"]) for b in beh)
+        beh += [b for b in exc_gen(d, rep, 1, 1) if tuple(b["tab"]) not in seen_]
     gen_x = rec(d, lib.MAIN_HOST, "rec_exc.py", "gen", beh, "gx", nproc=12)
     gen_o = []
     for v in ("3.11", "3.12", "3.13"):
